@@ -168,7 +168,24 @@ def run(rep: Report, tier: str) -> None:
                                 f"another order than the data structure gets its values stored under the wrong components"))
                 continue
             cl = single_def(g, mm.group(1))
-            ok = cl is not None and "for c in components" in src(cl) and '"' in src(cl)
+            ok = False
+            gens = [x for x in ast.walk(cl)] if cl is not None else []
+            for ge in [x for x in gens if isinstance(x, (ast.GeneratorExp, ast.ListComp))]:
+                g0 = ge.generators[0]
+                # the structure the table was created from: what this loader passes to build_create_table_sql
+                comp_names = {"components"} & set(g.params)
+                for cc in walk_no_nested(g.node):
+                    if isinstance(cc, ast.Call) and (src(cc.func).split(".")[-1] == "build_create_table_sql"):
+                        a_ = cc.args[1] if len(cc.args) > 1 else next((k.value for k in cc.keywords if k.arg == "components"), None)
+                        if isinstance(a_, ast.Name):
+                            comp_names.add(a_.id)
+                it_ok = (isinstance(g0.iter, ast.Name) and g0.iter.id in comp_names) or \
+                    (isinstance(g0.iter, ast.Call) and isinstance(g0.iter.func, ast.Attribute) and g0.iter.func.attr == "keys" and src(g0.iter.func.value) in comp_names)
+                el = ge.elt
+                quoted = isinstance(el, ast.JoinedStr) and len(el.values) == 3 and all(isinstance(el.values[i_], ast.Constant) and el.values[i_].value == '"' for i_ in (0, 2)) \
+                    and isinstance(el.values[1], ast.FormattedValue) and isinstance(g0.target, ast.Name) and src(el.values[1].value) == g0.target.id
+                if it_ok and quoted and not g0.ifs and len(ge.generators) == 1:
+                    ok = True
             if not ok:
                 rep.add(Finding("R33.2", f"R33.2/insert-column-names/{g.name}", g.module.rel, one.line, g.qualname,
                                 f"INSERT column list `{mm.group(1)}` is not the quoted component names of the structure: {src(cl) if cl is not None else '?'}"))
@@ -176,10 +193,19 @@ def run(rep: Report, tier: str) -> None:
     bd = P.func(f"{IO}._build_dataframe_select_columns")
     sks = [s for s in sqlx.iter_skeletons(P) if s.func is bd and "CAST(" in s.text]
     rep.instance("R33.2", "dataframe/select-by-name", nontrivial=True, sample={"exprs": [s.text[:70] for s in sks][:4]})
+    # the loop variable that names the component (key of components.items()), and locals defined as an expression over that quoted name
+    kvars = {lp.target.elts[0].id for lp in walk_no_nested(bd.node) if isinstance(lp, ast.For) and isinstance(lp.target, ast.Tuple) and lp.target.elts
+             and isinstance(lp.target.elts[0], ast.Name) and "components" in src(lp.iter)}
+    if not kvars:
+        raise AnalysisError("_build_dataframe_select_columns: `for <name>, <comp> in components.items()` not found")
+    by_name = {f'"{sqlx.HOLE_L}{k}{sqlx.HOLE_R}"' for k in kvars}
+    derived = {t.id for n_ in walk_no_nested(bd.node) if isinstance(n_, (ast.Assign, ast.AnnAssign)) and n_.value is not None
+               and any(q in (sqlx.skeleton_of(n_.value) or ("", []))[0] for q in by_name)
+               for t in (n_.targets if isinstance(n_, ast.Assign) else [n_.target]) if isinstance(t, ast.Name)}
     for s in sks:
         if "CAST(NULL" in s.text or s.text.startswith("'Date"):
             continue
-        if f'"{sqlx.HOLE_L}comp_name{sqlx.HOLE_R}"' not in s.text and f"{sqlx.HOLE_L}col_as_varchar{sqlx.HOLE_R}" not in s.text:
+        if not any(q in s.text for q in by_name) and not any(f"{sqlx.HOLE_L}{d}{sqlx.HOLE_R}" in s.text for d in derived):
             rep.add(Finding("R33.2", "R33.2/dataframe/select-by-name", bd.module.rel, s.line, bd.qualname,
                             f"source column not referenced by its quoted name in `{s.text[:80]}`"))
 
